@@ -16,7 +16,7 @@ MUTANTS = [
     {'id': 'c13-hash-whole-buffer', 'props': ['C13'], 'expect': 'fire', 'keys': ['buffer-use-bounded-by-count'],
      'edits': [(HASH, "self.hash.update(&into[..read]);", "self.hash.update(&into[..]);")]},
     {'id': 'c13-blocks-reader-returns-len', 'props': ['C13'], 'expect': 'fire', 'keys': ['BlocksToFileReader'],
-     'edits': [(LIB, "        if remaining > 0 {\n            self.state = BlocksToFileReaderState::InFile(remaining);\n        } else {\n            // remaining is 0 (> never happens thanks to take)\n            self.state = BlocksToFileReaderState::Ready;\n        }\n        Ok(count)", "        if remaining > 0 {\n            self.state = BlocksToFileReaderState::InFile(remaining);\n        } else {\n            // remaining is 0 (> never happens thanks to take)\n            self.state = BlocksToFileReaderState::Ready;\n        }\n        let _ = count;\n        Ok(into.len().min(remaining + 1))")]},
+     'edits': [(LIB, "                self.state = BlocksToFileReaderState::Ready;\n            }\n            return Ok(count);", "                self.state = BlocksToFileReaderState::Ready;\n            }\n            let _ = count;\n            return Ok(into.len().min(remaining + 1));")]},
     {'id': 'c13-raw-writer-full', 'props': ['C13'], 'expect': 'fire', 'keys': ['RawLayerWriter'],
      'edits': [(RAW, "    fn write(&mut self, buf: &[u8]) -> io::Result<usize> {\n        self.inner.write(buf)\n    }", "    fn write(&mut self, buf: &[u8]) -> io::Result<usize> {\n        self.inner.write(buf)?;\n        Ok(buf.len())\n    }")]},
     {'id': 'c13-benign-explicit-match', 'props': ['C13'], 'expect': 'silent',
